@@ -134,6 +134,7 @@ func (fx *FuncVC) runTop() {
 	for k, v := range fx.paramEntry {
 		env.vars[k] = v
 	}
+	fx.assumeTables()
 	for _, r := range spec.Requires {
 		fx.assume(fx.evalBool(env, r.E, r))
 	}
